@@ -214,7 +214,7 @@ def _run_out(case, obs, classes):
     violations = []
     for _ in range(case['count']):
         sim, node = _fresh_node()
-        mode = rng.choice(['local', 'local', 'forward', 'fragment', 'report'])
+        mode = rng.choice(['local', 'local', 'forward', 'fragment', 'report', 'forward-fragment'])
         bundle = gen.rand_bundle(rng, hard_eids=False, allow_admin=False, max_ext=3,
                                  payload_len=rng.choice([0, 1, 30, 200, 700]))
         # outputs need at least one CRC somewhere to be interesting; keep the generator's choice otherwise
@@ -233,7 +233,13 @@ def _run_out(case, obs, classes):
             except Exception:  # pylint: disable=broad-except
                 obs['out_send_raised'] += 1
         else:
-            bundle['primary']['dest'] = 'dtn://other/x' if mode == 'forward' else 'dtn://me/x'
+            if mode == 'forward-fragment':
+                # a received bundle (its blocks arrive with CRC values) that must be fragmented on the way out
+                bundle['primary']['flags'] &= ~bpv7.FLAG_NO_FRAGMENT
+                bundle['blocks'][-1]['data'] = bytes((idx * 11) & 0xFF for idx in range(rng.choice([200, 700])))
+                node.cfg.tx_route_table[0].mtu = len(bpv7.encode(bundle)) - rng.randint(20, 150)
+                obs['out_forward_fragment'] = obs.get('out_forward_fragment', 0) + 1
+            bundle['primary']['dest'] = 'dtn://other/x' if mode.startswith('forward') else 'dtn://me/x'
             bundle['primary']['flags'] &= ~bpv7.FLAG_IS_FRAGMENT
             bundle['primary']['frag_offset'] = bundle['primary']['total_adu_len'] = None
             bundle['primary']['flags'] |= (bpv7.FLAG_REQ_RECEPTION | bpv7.FLAG_REQ_DELIVERY | bpv7.FLAG_REQ_FORWARDING)
